@@ -23,11 +23,40 @@ type c49Case struct {
 	// input packet": a VM is built once and used for many packets; each run must give
 	// the verdict of a reference run that starts from a clean machine).
 	More [][]byte `json:"more,omitempty"`
+	// Fill appends that many further instructions to Prog (long programs, kept compact
+	// in the case file): "ret #index", except at the FillJumps positions.
+	Fill      int        `json:"fill,omitempty"`
+	FillJumps []c49FillJ `json:"fill_jumps,omitempty"`
+}
+
+// c49FillJ replaces filler instruction At by a jump (Ins.Kind Jump, JumpIf or JumpIfX).
+type c49FillJ struct {
+	At  int    `json:"at"`
+	Ins bpfIns `json:"ins"`
+}
+
+// c49Expand returns the whole program of the case.
+func c49Expand(c c49Case) []bpfIns {
+	if c.Fill <= 0 {
+		return c.Prog
+	}
+	out := append([]bpfIns(nil), c.Prog...)
+	base := len(out)
+	for i := 0; i < c.Fill; i++ {
+		out = append(out, bpfIns{Kind: "RetConstant", K: uint32(base + i)})
+	}
+	for _, j := range c.FillJumps {
+		if j.At >= 0 && j.At < c.Fill-1 {
+			out[base+j.At] = j.Ins
+		}
+	}
+	return out
 }
 
 type c49Trace struct {
 	ambiguous   string // non-empty: the statement does not determine the verdict
 	takenJumps  int    // jumps executed with a non-zero displacement
+	longJumps   int    // unconditional jumps executed with a displacement >= 256
 	inBounds    int    // packet loads that were in bounds
 	oobLoad     bool
 	divZeroX    bool
@@ -198,6 +227,9 @@ func c49Ref(prog []RawInstruction, pkt []byte) (uint32, c49Trace, error) {
 				if k != 0 {
 					tr.takenJumps++
 				}
+				if k >= 256 {
+					tr.longJumps++
+				}
 				pc += int64(k)
 				continue
 			}
@@ -248,6 +280,7 @@ func c49Ref(prog []RawInstruction, pkt []byte) (uint32, c49Trace, error) {
 }
 
 func c49Prop(c c49Case, r *vp.Rec) error {
+	c.Prog = c49Expand(c)
 	prog := make([]Instruction, len(c.Prog))
 	for i, x := range c.Prog {
 		prog[i] = x.build()
@@ -300,6 +333,10 @@ func c49Prop(c c49Case, r *vp.Rec) error {
 	if tr.takenJumps > 0 {
 		r.Class("jump taken")
 	}
+	if tr.longJumps > 0 {
+		r.Class("unconditional jump over 256 or more instructions taken")
+		r.NonTrivial()
+	}
 	if tr.inBounds > 0 {
 		r.Class("in-bounds load")
 	}
@@ -337,8 +374,12 @@ func c49Bucket(n int) string {
 		return "2-5"
 	case n <= 15:
 		return "6-15"
+	case n <= 40:
+		return "16-40"
+	case n <= 257:
+		return "41-257"
 	}
-	return "16-40"
+	return "258-"
 }
 
 var c49Pool = []uint32{0, 1, 2, 3, 4, 7, 8, 15, 16, 31, 32, 33, 63, 64, 0x7f, 0x80, 0xff, 0x100, 0xffff, 0x10000,
@@ -512,6 +553,73 @@ func c49Gen(t *rapid.T) c49Case {
 		c.More = append(c.More, q)
 	}
 	return c
+}
+
+// c49LongGen draws programs of several hundred instructions: a short head of
+// straight-line code, then filler "ret #index" instructions (the verdict tells where
+// execution landed) among which sit jumps of any width, including unconditional jumps
+// with skips of 256 and more, which only fit in programs this long.
+func c49LongGen(t *rapid.T) c49Case {
+	var c c49Case
+	c.Pkt = rapid.SliceOfN(rapid.Byte(), 0, 16).Draw(t, "pkt")
+	if c.Pkt == nil {
+		c.Pkt = []byte{}
+	}
+	c.Fill = rapid.SampledFrom([]int{40, 200, 256, 257, 258, 300, 513, 600, 1000}).Draw(t, "fill")
+	c.Fill += rapid.IntRange(0, 3).Draw(t, "fillExtra")
+	head := rapid.IntRange(0, 3).Draw(t, "head")
+	for i := 0; i < head; i++ {
+		c.Prog = append(c.Prog, bpfIns{Kind: "LoadConstant", Reg: uint16(rapid.IntRange(0, 1).Draw(t, "reg")), K: rapid.SampledFrom(c49Pool).Draw(t, "val")})
+	}
+	// the filler jumps, in program order; position 0 is always a jump
+	n := rapid.IntRange(1, 6).Draw(t, "jumps")
+	at := 0
+	for k := 0; k < n && at < c.Fill-1; k++ {
+		room := c.Fill - 1 - at // filler instructions after this one
+		skip := func(label string, max int) uint32 {
+			max = min(max, room-1)
+			if max <= 0 {
+				return 0
+			}
+			switch rapid.IntRange(0, 3).Draw(t, label+"Kind") {
+			case 0:
+				return uint32(max)
+			case 1:
+				if max >= 256 {
+					return uint32(rapid.SampledFrom([]int{255, 256, 257, 511, 512}).Draw(t, label+"Edge") % (max + 1))
+				}
+			}
+			return uint32(rapid.IntRange(0, max).Draw(t, label))
+		}
+		var x bpfIns
+		switch rapid.IntRange(0, 3).Draw(t, "jumpKind") {
+		case 0:
+			x = bpfIns{Kind: "JumpIf", Op: rapid.SampledFrom(bpfDefJumpTest).Draw(t, "test"), K: rapid.SampledFrom(c49Pool).Draw(t, "cmp"),
+				T: uint8(skip("t", 255)), F: uint8(skip("f", 255))}
+		case 1:
+			x = bpfIns{Kind: "JumpIfX", Op: rapid.SampledFrom(bpfDefJumpTest).Draw(t, "test"), T: uint8(skip("t", 255)), F: uint8(skip("f", 255))}
+		default:
+			x = bpfIns{Kind: "Jump", K: skip("skip", 1<<20)}
+		}
+		c.FillJumps = append(c.FillJumps, c49FillJ{At: at, Ins: x})
+		// the next jump sits on one of the landing spots of this one
+		var land int
+		switch x.Kind {
+		case "Jump":
+			land = at + 1 + int(x.K)
+		default:
+			land = at + 1 + int(x.T)
+			if rapid.Bool().Draw(t, "followFalse") {
+				land = at + 1 + int(x.F)
+			}
+		}
+		at = land
+	}
+	return c
+}
+
+func TestVP_C49_long(t *testing.T) {
+	vp.Run(t, vp.Spec[c49Case]{ID: "C49", Sub: "long", Gen: c49LongGen, Prop: c49Prop})
 }
 
 func TestVP_C49(t *testing.T) {
